@@ -35,7 +35,7 @@ ASSUMPTIONS = [
     "garbage written by the caller is finite (1e6-scale) so that a live reference changes later outputs instead of crashing",
 ]
 
-LAYOUTS_X = ["c_order", "fortran", "view", "readonly_view", "frame", "mixed_frame", "buffer", "frame_buffer", "readonly_buffer", "zero_d_buffer", "one_d_view"]
+LAYOUTS_X = ["c_order", "fortran", "view", "readonly_view", "frame", "mixed_frame", "buffer", "frame_buffer", "readonly_buffer", "zero_d_buffer", "one_d_view", "series_1d"]
 LAYOUTS_Y = ["arrays", "lists", "series"]
 
 
@@ -50,7 +50,7 @@ def cases(tier, seed):
                 continue
             if lay == "zero_d_buffer" and zoo.kind(name) != "x1":
                 continue  # a 0-d array is one number: univariate streaming detectors only
-            if lay == "one_d_view" and zoo.kind(name) == "xd":
+            if lay in ("one_d_view", "series_1d") and zoo.kind(name) == "xd":
                 continue  # a 1-d array is one feature (batch) or one observation of one feature (univariate streams)
             for i in range(n):
                 out.append({"id": "det/%s/%s/%d" % (name, lay, i), "kind": "det", "det": name, "layout": lay, "seed": [seed, 15, i], "cost": cost})
@@ -81,6 +81,8 @@ def make_obj(val, layout, names=None, mixed_ok=True):
         return v
     if layout == "zero_d_buffer":
         return np.array(float(a.ravel()[0]))  # 0-d array (an nditer item, series[i, ...]); refilled in place by the caller
+    if layout == "series_1d":
+        return pd.Series(a[:, 0].copy())  # one feature as a pandas Series (a column of the caller's frame)
     if layout == "one_d_view":
         # one feature handed over as a 1-d slice of a larger array the caller keeps writing to (series[a:b], matrix[:, j])
         big = np.zeros((a.shape[0] + 2, 3))
@@ -176,7 +178,7 @@ def run(name, params, calls, layout, alias, key, ctx, count):
             if name == "CUSUM" and "Standard deviation is 0" in str(e):
                 trace.append({"state": "documented ValueError (zero variance)"})
                 break
-            if j == 0 and layout in ("zero_d_buffer", "one_d_view", "readonly_view", "readonly_buffer"):
+            if j == 0 and layout in ("zero_d_buffer", "one_d_view", "readonly_view", "readonly_buffer", "series_1d"):
                 return "refused"  # whether such a container is acceptable input at all is C14's question, not an aliasing matter
             raise
         if count:
@@ -209,7 +211,7 @@ def run_case(case, ctx):
     from .c14 import det_params, valid_history
 
     params = det_params(name, rng)
-    calls, d = valid_history(name, rng, params, allow_1d=True, p1d=1.0 if layout == "one_d_view" else 0.45)
+    calls, d = valid_history(name, rng, params, allow_1d=True, p1d=1.0 if layout in ("one_d_view", "series_1d") else 0.45)
     if zoo.kind(name) == "batch" and layout in ("buffer", "frame_buffer"):
         # one preallocated batch buffer (array or frame) refilled in place for every call: all batches of one size
         mn_ = min(len(v) for _, v in calls)
